@@ -580,7 +580,8 @@ impl Driver {
         let r = crate::pred::c12_unresolvable(&self.w, &dump);
         for (what, detail, ph) in r {
             let known = self.w.orphan_cause.get(&ph).cloned();
-            let sig = known.or(if ph == parent.tx_hash { Some(crate::pred::SIG_F7) } else { None });
+            let f9p = dump.entries.iter().any(|e| e.inputs.iter().any(|op| op.tx_hash() == ph) && crate::pred::f9p_footprint(&self.w, e, &ph));
+            let sig = known.or(if f9p { Some(crate::pred::SIG_F9P) } else if ph == parent.tx_hash { Some(crate::pred::SIG_F7) } else { None });
             if let Some(s) = sig {
                 self.w.orphan_cause.entry(ph).or_insert(s);
             }
